@@ -248,11 +248,13 @@ class ProbabilisticNode(Node):
             if state_list[_next_state[NEXT_STATE_IDX]].reach_probability == 0]
         if not dead_states:
             return
-        removed_probability = sum(_next_state[PROBABILITY] for _next_state in dead_states)
-        self.next_states = [
-            (_next_state[PROBABILITY] / (1 - removed_probability), _next_state[NEXT_STATE_IDX])
-            for _next_state in self.next_states
+        surviving_states = [
+            _next_state for _next_state in self.next_states
             if state_list[_next_state[NEXT_STATE_IDX]].reach_probability != 0]
+        surviving_probability = sum(_next_state[PROBABILITY] for _next_state in surviving_states)
+        self.next_states = [
+            (_next_state[PROBABILITY] / surviving_probability, _next_state[NEXT_STATE_IDX])
+            for _next_state in surviving_states]
 
     def remove_path(self, state_to_remove):
         """
